@@ -94,12 +94,12 @@ type CfgA struct {
 	Grace       int64     `json:"grace"`
 	DevBP       int64     `json:"deviation_bp"`
 	Period      int       `json:"block_period_s"`
-	Phase       int       `json:"block_phase"` // blocks are executed at ticks = Phase mod Period
+	Phase       int       `json:"block_phase"`  // blocks are executed at ticks = Phase mod Period
 	Lag         int       `json:"header_lag_s"` // block header time = wall time of execution - Lag
 	PollFirst   bool      `json:"poll_before_block"`
 	Lat         []int     `json:"latency_s"`
 	Menu        []string  `json:"menu"`
-	Menu2       []string  `json:"menu_second_signal,omitempty"` // menu of every signal but the (alphabetically) first; nil = Menu
+	Menu2       []string  `json:"menu_second_signal,omitempty"`    // menu of every signal but the (alphabetically) first; nil = Menu
 	MaxMiss     int       `json:"max_consecutive_missing_answers"` // a signal is absent from at most this many consecutive answers
 	Horizon     int       `json:"horizon_ticks"`
 }
@@ -223,12 +223,12 @@ func (p *pnode) path() []string {
 }
 
 type stateA struct {
-	ov        []kvDelta // tracked stores: difference against the background chain of the same level
-	chainHash string    // hash of the full content of the tracked stores
-	fl        []flight  // in-flight submissions, sorted by key
+	ov        []kvDelta            // tracked stores: difference against the background chain of the same level
+	chainHash string               // hash of the full content of the tracked stores
+	fl        []flight             // in-flight submissions, sorted by key
 	dm        *signaller.Signaller // the daemon as the last poll left it (immutable; nil before the first poll)
 	dmKey     string               // daemonMemoryKey(dm)
-	miss      map[string]int // consecutive polls at which the signal was requested and absent from the answer (immutable)
+	miss      map[string]int       // consecutive polls at which the signal was requested and absent from the answer (immutable)
 	p         *pnode
 }
 
@@ -564,8 +564,8 @@ func (x *workerA) otherStoresHash(ctx sdk.Context) string {
 
 type pollInfo struct {
 	daemon *signaller.Signaller // the daemon after this poll
-	req    []string          // requested signal ids, sorted
-	given  map[string]answer // answer per requested id
+	req    []string             // requested signal ids, sorted
+	given  map[string]answer    // answer per requested id
 	menus  [][]string
 	sizes  []int
 	chosen string
